@@ -19,7 +19,7 @@ const c20forkObs = uint64(1<<31 - 2)
 
 func runC20(c *ev.Ctx) {
 	c.Rule = "plain DAGs (1..10 validators, all weight regimes, forks by any subset) indexed by a real vecfc.Index; every event is handed to QuorumIndexer.ProcessEvent with a seeded self/non-self flag (independent of the creator, also flipping for one creator); after EVERY event: GetGlobalMedianSeqs vs 'largest s such that the creators whose latest processed event observes the validator at >= s hold a quorum' computed from the reference's graph closure (a seen fork counts as 2^31-2), " +
-		"GetSelfParentSeqs vs the observation of the last event processed with the self flag, and GetMetricOf(candidate) for two known events vs the sum over validators of an argument-order-sensitive diff function of (median, own, candidate's observation, validator index). " +
+		"GetSelfParentSeqs vs the observation of the last event processed with the self flag, and GetMetricOf(candidate) for two known events (and, on a third of the events, for one more candidate asked right after ProcessEvent, before any other query) vs the sum over validators of an argument-order-sensitive diff function of (median, own, candidate's observation, validator index). " +
 		"non-trivial = distinct DAGs where some median was decided by a fork observation or where two creators' latest events disagreed about a validator by more than one"
 	c.Assumptions = []string{"observations come from the reference closure (C06 ties the index to it)", "the diff function is pure"}
 	nD := c.Pick(1500, 30000)
@@ -83,6 +83,17 @@ func runC20(c *ev.Ctx) {
 			latest[e.Creator()] = ei
 			if self {
 				selfEv = ei
+			}
+			// ---- on some events the metric is asked FIRST, before anything else reads the indexer
+			earlyCand, earlyGot := -1, ancestor.Metric(0)
+			if r.Intn(3) == 0 {
+				earlyCand = r.Intn(ref.Len())
+				if p, _ := ev.Try(func() { earlyGot = qi.GetMetricOf(ref.Ev(earlyCand).ID) }); p != nil {
+					m := desc()
+					m["panic"] = fmt.Sprint(p)
+					c.Violation("metric-panics", m)
+					return
+				}
 			}
 			// ---- medians
 			var med []idx.Event
@@ -150,10 +161,16 @@ func runC20(c *ev.Ctx) {
 				}
 			}
 			// ---- metric of candidates
-			for q := 0; q < 2; q++ {
+			for q := 0; q < 3; q++ {
 				ci := r.Intn(ref.Len())
 				var got ancestor.Metric
-				if p, _ := ev.Try(func() { got = qi.GetMetricOf(ref.Ev(ci).ID) }); p != nil {
+				if q == 2 {
+					if earlyCand < 0 {
+						break
+					}
+					ci, got = earlyCand, earlyGot
+					c.Count("metrics_asked_before_any_other_query", 1)
+				} else if p, _ := ev.Try(func() { got = qi.GetMetricOf(ref.Ev(ci).ID) }); p != nil {
 					m := desc()
 					m["panic"] = fmt.Sprint(p)
 					c.Violation("metric-panics", m)
